@@ -766,6 +766,25 @@ impl Sim {
             self.peers[p].relay_open = false;
         }
         let _ = by_client;
+        // A protocol-open event that was queued before the session closed is delivered after the
+        // peer has left the network's registry (the relay protocol is opened on demand).
+        if self.client.is_some()
+            && self.plan.flags.iter().any(|f| f == "late_relay_open")
+            && protos.len() == 3
+            && crate::entropy::mix(&[self.plan.seed, session as u64, 0x1a7e]) % 3 == 0
+        {
+            self.stat("fault.relay_open_races_with_session_close");
+            self.log(format!("relay protocol of s{} opens while the session is closing", session));
+            for proto in [Proto::RelayV2, Proto::RelayV3] {
+                let now = self.now;
+                let r = self.client.as_mut().unwrap().connected(proto, PeerIndex::new(session), now);
+                if let Err(u) = r {
+                    self.on_unwind("connected", Some(proto), u);
+                    return;
+                }
+                self.flush(Some(session));
+            }
+        }
         if self.client.is_some() {
             for proto in protos {
                 let now = self.now;
